@@ -69,9 +69,26 @@ func enumShapeCases() []*Case {
 	return out
 }
 
+// flattenNameCases: flatten inside flatten where the inner flattened FIELD (which contributes no
+// member of its own) is named like a member of the outer object: a valid type.
+func flattenNameCases() []*Case {
+	inner := &Message{Name: "Inner", Fields: []*Field{F("x_val", 1, KString, Single), F("n_val", 2, KInt64, Single)}, Full: true}
+	leafIn := F("leaf", 1, KFlatten, Single)
+	leafIn.Msg = inner
+	mid := &Message{Name: "Mid", Fields: []*Field{leafIn, F("m_val", 2, KBool, Single)}, Full: true}
+	midF := F("mid", 2, KFlatten, Single)
+	midF.Msg = mid
+	leaf := F("leaf", 1, KString, Single)
+	root := &Message{Name: "T", Fields: []*Field{leaf, midF}, Full: true}
+	return []*Case{{
+		ID: "flatten-field-named-like-outer-member", Coord: "kind=string|label=single|context=flatten-field-named-like-outer-member",
+		Schema: &Schema{Messages: []*Message{root}, Root: root}, Under: leaf, Holder: root,
+	}}
+}
+
 // SingleFieldCases: every (kind x label x context) single-field message.
 func SingleFieldCases() []*Case {
-	out := enumShapeCases()
+	out := append(enumShapeCases(), flattenNameCases()...)
 	for _, k := range AllKinds() {
 		for _, l := range labelsFor(k) {
 			for _, ctx := range Contexts {
